@@ -15,6 +15,12 @@ Clauses(e) ==
         (IF Len(e.out) # Len(e.x) THEN {"length"} ELSE {}) \cup
         (IF ~DistinctOK(e.out, e.n) THEN {"more-than-2^n-values"} ELSE {}) \cup
         (IF Len(e.out) = Len(e.x) /\ ~AdcOK(e.x, e.s, e.out, e.n, e.otype) THEN {"codes-range-halfstep-saturation"} ELSE {})
-Bad == UNION {{<<i, c>> : c \in Clauses(Trace[i])} : i \in 1..Len(Trace)}
+\* (data that are not dyadic: the countable clauses as observed by the harness)
+StatClauses(e) ==
+  CASE e.kind = "sistat" -> (IF ~e.ordered THEN {"lo<=hi"} ELSE {}) \cup (IF ~e.lo_in \/ ~e.hi_in THEN {"not-data-values"} ELSE {}) \cup
+                            (IF e.covered < e.lag + 1 THEN {"coverage"} ELSE {})
+    [] e.kind = "adcstat" -> (IF ~e.len_ok THEN {"length"} ELSE {}) \cup (IF e.distinct > Pow2(e.n) THEN {"more-than-2^n-values"} ELSE {}) \cup
+                             (IF ~e.finite \/ ~e.inside THEN {"outside-full-scale"} ELSE {}) \cup (IF ~e.sat_ok THEN {"saturation-at-end-codes"} ELSE {})
+Bad == UNION {{<<i, c>> : c \in (IF Trace[i].kind \in {"sistat", "adcstat"} THEN StatClauses(Trace[i]) ELSE Clauses(Trace[i]))} : i \in 1..Len(Trace)}
 ASSUME JsonSerialize(IOEnv.OUT_FILE, [n |-> Len(Trace), bad |-> Bad])
 =============================================================================
